@@ -380,7 +380,8 @@ def proto_set_response_params(u: U):
     old = object()
     p = u.obj("ResponseHandler", {"_parser": old, "_tail": tail, "_loop": "L", "_skip_payload": False,
                                   "_read_timeout": None, "_timeout_ceil_threshold": 5},
-              {"data_received": lambda self, d: log.append(("data_received", d, fields(self)["_parser"]))}, shared=False)
+              {"data_received": lambda self, d: log.append(("data_received", d, fields(self)["_parser"]))}, shared=False,
+              init=(PROTO, "ResponseHandler.__init__", ("L",), {}), real=(PROTO, "ResponseHandler"))
     f = u.load(PROTO, "ResponseHandler.set_response_params", globals={"HttpResponseParser": mk_parser,
                                                                       "ClientPayloadError": Exception})
     out = u.call(f, p)
@@ -391,6 +392,15 @@ def proto_set_response_params(u: U):
     if log:
         u.check("C06.params.tail_replayed_into_new_parser", len(log) == 1 and log[0][1] is tail and log[0][2] is made[0]
                 and blen(fs["_tail"]) == 0, "leftover bytes go to the new parser, once, and _tail is emptied")
+    # the next request on the same (pooled) connection, with the same settings: whatever set_response_params remembers
+    # from the first call, the parser - which privately buffers partial lines of whatever arrived in between - is new
+    first = fs["_parser"]
+    out2 = u.call(f, p)
+    u.check("C06.params.total_again", out2.ok, repr(out2))
+    u.check("C06.params.fresh_parser_for_every_request", len(made) == 2 and fields(p)["_parser"] is made[1]
+            and fields(p)["_parser"] is not first,
+            "re-acquiring a pooled connection installs a new parser too: bytes the old one held back (an unterminated "
+            "header block sent behind the previous response) must not be completed by the next response")
 
 
 # ---------------------------------------------------------------------------------------------------------------
